@@ -1,5 +1,6 @@
 """C05 — Vary: a stored variant is only served to requests that select it."""
 import itertools
+import re
 
 from kv import Case, xn, xb, xl, xlist, xbool, xparse, xtext
 import kv
@@ -7,38 +8,68 @@ import pipe
 
 ID = "C05"
 MODULE = "C05"
-IMPORTS = "Bytes RustInt Range CacheControl Cache CacheProofs Fixture RustStd Vary VaryProofs"
+IMPORTS = "Bytes RustInt Range CacheControl Cache CacheProofs Fixture RustStd Vary VaryProofs VaryWire VaryWireProofs"
 PROFILES = ("dev",)
 
-RULE = ("histories through the real kvarn::handle_cache in process (harness/src/c05.rs on top of c00pipe.rs): hosts with 1-3 pages, each page "
-        "with a vary rule set of 0-3 rules (header name incl. mixed-case and non-token names, transformation from the many-to-few menu "
+RULE = ("histories through the real kvarn::handle_cache in process (component vary.run, harness/src/c05.rs on top of c00pipe.rs) and over one loopback "
+        "HTTP/1.1 connection served by kvarn::handle_connection (component vary.wire, harness/src/c05wire.rs: what SendKind::send wrote). Hosts with 1-4 "
+        "pages, each with a vary rule set of 0-3 rules (header name incl. mixed-case and non-token names, transformation from the many-to-few menu "
         "{lower-case, first-byte class lo/hi/none, length mod 3, constant} implemented in Rust and in Gallina, default incl. defaults equal to a class), "
-        "served by a counting handler that echoes its own transformed tuple; requests GET/HEAD(/POST) whose rule headers are absent, present "
-        "(same class / different class), empty, repeated, or not text (obs-text bytes); every history = first pass in some arrival order, dump of the "
-        "stored variant vector, second pass, dump; thorough: all arrival orders of every chosen request multiset of size <= 5, random orders beyond; "
-        "quick: all orders of size <= 4 for a few sets + random. Compared per request: status, vary header, last-modified presence, decoded body, identity "
-        "body, handler invocation log; per dump: the stored header lists in vector order (model side: the Coq vector model). "
-        "Spec oracle (component vary.spec = finite map (page, transformed tuple) -> response): body is the rendering of the request's own transformed tuple, "
-        "exactly one handler invocation per distinct tuple per page between clears, vary header equation, and every dumped vector holds exactly the "
-        "tuples seen, each once (its ascending order for Rust's Ord on [Header] is compared with the model's vector by the correspondence). distinct_nontrivial = histories that stored >= 3 variants on one page")
+        "registered under the exact path or under a pattern '<prefix>*' (longer pattern / exact path win), server cache preference Full or QueryMatters, "
+        "bodies below and above the 50-byte floor of the compressor, with and without the default extensions (Prime uri_redirect in front); served by a "
+        "counting handler that echoes its own transformed tuple (and the query on QueryMatters pages); requests GET/HEAD/POST whose rule headers are "
+        "absent, present (same class / different class), empty, repeated with values of different classes, or not text (obs-text bytes), with "
+        "accept-encoding, If-Modified-Since (start + 100 s = fresh for every entry, start - 100 s = for none), and on the wire Range (satisfiable, starting "
+        "after the end, start > end, unparsable); every history = first pass in some arrival order, dump of the stored variant vector, second pass, "
+        "dump; thorough: all arrival orders of every chosen request multiset of size <= 5, random orders beyond; quick: all orders of size <= 4 for a few "
+        "sets, all orders of 2-4 tuples whose components run together to the same text (('ab','c') / ('a','bc') / ('abc','') ...) + random. Compared per "
+        "request with the extracted model: status, vary header, decoded body, identity body, handler invocation log; per dump: "
+        "the stored header lists in vector order; on the wire: status, every vary line, decoded body, handler log. Spec oracles: (1) component vary.spec = "
+        "finite map (page, transformed tuple) -> response (pages stored under the path key, no conditional requests); (2) an independent reading of the "
+        "property in Python on the implementation's output alone (every sequential history, in process and on the wire, incl. QueryMatters pages and "
+        "conditional requests): a store cache key -> set of tuples; a request is answered without a handler invocation exactly when its own tuple (and "
+        "query) was computed since the last clear, with exactly one otherwise; every 200/206 body is the rendering of the request's own transformed tuple; "
+        "every response with a body carries exactly one vary line 'accept-encoding, range' + the rule headers of the page, 416/404/400/406 included; "
+        "no dumped vector holds two variants with equal lists. distinct_nontrivial = histories that stored >= 3 variants on one page / wire histories "
+        "with >= 2 different statuses")
 ASSUMPTIONS = [
     "sequential histories in the theorems about serveV (one request at a time); the one suspension point of handle_cache (the await on the handler in "
     "the miss arm / in handle_vary_missing) is modelled as two phases, and interleavings at that point are exercised by the park/release operations "
     "of the harness and covered by the theorems stale_position_* only",
     "moka is a finite map with read-your-writes; its capacity (1024 entries) is never reached",
     "vary_refines_map / computed_once_per_tuple: every GET/HEAD response of the handler is cacheable under the path key and never expires, requests pass "
-    "sanitize and carry no If-Modified-Since (theorem hypotheses; fixture pages are ServerCachePreference::Full without max-age)",
-    "rule sets are looked up by exact path in the fixture (extensions::RuleSet::get with patterns is C14's subject); internal '/./' override URIs of Prime "
-    "extensions are not modelled",
+    "sanitize and carry no If-Modified-Since (theorem hypotheses; for QueryMatters pages and conditional requests the same is checked by the Python "
+    "history oracle and by the correspondence, and follows from vector_refines_assoc_list + C03's theorems)",
+    "rule sets are looked up through the model of extensions::RuleSet (Model/RuleSet.v, C14's subject; here exact paths and patterns of different "
+    "lengths); internal '/./' override URIs of Prime extensions are not modelled (the cache key would be the override path, the rules those of the client path)",
     "HeaderMap::get(&str) for rule names longer than 64 bytes is modelled by the same normalisation as for shorter ones (not generated)",
-    "content negotiation is abstract (C06): bodies are compared after decoding content-encoding with standard decoders; streaming responses are not modelled "
-    "(apply_header's no_range branch is in the model but unreachable from serveV)",
+    "content negotiation is abstract (C06): bodies are compared after decoding content-encoding with standard decoders (bodies above the 50-byte floor "
+    "with accept-encoding are generated); streaming responses (a `future` in the reply) are not modelled: handle_cache skips apply_header for a stream "
+    "without announced length, send does not apply ranges to streams (apply_header's no_range branch is in the model but unreachable from serveV)",
+    "on the wire: wire_vary_advertised assumes that the operator's Package extensions leave `vary` alone (hypothesis; the ones of Extensions::new() do, "
+    "observed); what send does besides (content-length, connection, version) is C08's subject and not in Model/VaryWire.v; the answers handle_connection "
+    "gives before a host's page is consulted (429 of the limiter, 409 for an unknown host) carry no vary and are outside the property (they do not "
+    "depend on the path: 'when a path has vary rules'); HTTP/2 and HTTP/3 write the same head (not run)",
+    "kvarn's HTTP/1 parser keeps the last of repeated header lines (HeaderMap::insert in utils/src/parse.rs: C07's subject), so handle_cache never sees a "
+    "repeated rule header on an HTTP/1 connection: repeated headers are exercised in process only",
+    "If-Modified-Since: the 304 is decided on the entry's date before the variants are looked at (not_modified_before_variant_lookup; a request whose own "
+    "tuple was never computed gets it: not_modified_only_for_stored_variant_refuted, replayed on the code). That this is harmless for a client that "
+    "sends back the last-modified it was given for the same URL and the same transformed tuple is proved per entry (not_modified_same_entry_sound: the "
+    "entry holds for that tuple the variant the client was served; entry_changes_are_dated: a value never changes under its date) and over histories "
+    "(honest_not_modified_sound + served_copy_is_held) under three explicit premises: every later request happens at a time after the client's date "
+    "(a clock that moves on), the entry the 304 is decided on is not younger than that date (what the freshness test establishes up to the one-second "
+    "resolution of HTTP dates: C04's not_modified_arithmetic is the other half, not composed here), and the URL is cached under one of its two keys "
+    "only (pages that do not switch between the preferences QueryMatters and Full)",
 ]
 TRUSTED = ["modelled: src/vary.rs (Settings::add_rule's assertion, VariedResponse::{new,push_response,get,get_headers_for_request,get_by_request,first}, "
-           "get_header, apply_header, derived Ord of Header and Ord of slices), src/lib.rs handle_cache + handle_cache_helpers::{maybe_cache, "
-           "handle_vary_missing} (as in Model/Cache.v, with the variant vector instead of an association list), rustc 1.95 slice::binary_search_by "
-           "(Model/RustStd.v), http 1.5.0 HeaderMap::get(&str) name normalisation (HEADER_CHARS), HeaderValue::to_str; "
-           "handlers/transformations are the fixture menu (harness/src/c00pipe.rs = Model/Fixture.v); the dump reads VariedResponse's derived Debug output"]
+           "get_header, apply_header, apply_header_from_settings, derived Ord of Header and Ord of slices), src/lib.rs handle_cache + "
+           "handle_cache_helpers::{maybe_cache, handle_vary_missing} (as in Model/Cache.v, with the variant vector instead of an association list), "
+           "SendKind::send as far as status, body and vary go (Model/VaryWire.v: apply_to_response = Model/Range.v, the 416 replacement, resolve_package "
+           "abstract, HEAD), extensions::RuleSet::{add_mut,get} (Model/RuleSet.v), rustc 1.95 slice::binary_search_by (Model/RustStd.v), http 1.5.0 "
+           "HeaderMap::get(&str) name normalisation (HEADER_CHARS), HeaderValue::to_str; handlers/transformations are the fixture menu "
+           "(harness/src/c00pipe.rs = Model/Fixture.v, kind 5 in harness/src/c05.rs = Model/Vary.v compute_c05); the dump reads the field names "
+           "`name`/`transformed` and string literals out of VariedResponse's Debug output (nothing else of it; an unreadable dump is skipped and reported, "
+           "never a verdict); the wire client of c05wire.rs (own framing by content-length)"]
 LEVEL_TEXT = ("Coq theorems, for all rule sets (any number of rules, names, transformations, defaults), all header values and all histories "
               "(requests, page clears, clear-all, waits/expiry): vary_served_for_equal_tuple — by an inductive invariant on the cache (every variant "
               "vector strictly sorted for Rust's Ord on [Header], built with the page's rules, every stored response computed for a request of that page "
@@ -47,16 +78,30 @@ LEVEL_TEXT = ("Coq theorems, for all rule sets (any number of rules, names, tran
               "lookup_refines_map / insert_refines_map / lookup_never_wrong_variant (rustc 1.95 binary_search_by on the vector = finite map; exact match "
               "even on an unsorted vector); vary_refines_map — the server's observations and handler invocations equal those of a finite-map server "
               "(page, transformed list) -> response for every history when GET/HEAD responses are cacheable under the path key without expiry; "
-              "computed_once_per_tuple; default_applied; vary_header_eq (exact equation, rule order); stale_position_safe for the repaired "
-              "handle_vary_missing (second half of a request against any invariant-satisfying cache) with stale_position_v0_refuted for the code before "
-              "the repair (panic / unsorted vector, reproduced on the real code); vector_refines_assoc_list + vary_cache_transparent connect the vector "
-              "model to Model/Cache.v and C03's transparency. Tied to the repo by the differential run of the real kvarn::handle_cache against the "
-              "extracted model (incl. the order of the stored vector read from VariedResponse's Debug output) and the finite-map spec oracle.")
-LEVEL_NOTE = ("Trusted: Coq kernel; extraction (sample re-checked in-kernel); hand transcription of vary.rs / handle_cache into Model/Vary.v validated by the "
-              "differential run incl. the order of the stored vector; moka as a finite map. No axioms.")
-TECHNIQUE = "Coq proof (inductive invariant over all histories + refinement of the sorted vector to a finite map) + differential correspondence on kvarn::handle_cache"
+              "computed_once_per_tuple; default_applied; vary_header_eq (exact equation, rule order) for the reply of handle_cache and "
+              "wire_vary_advertised for what SendKind::send passes to the connection: for every history, every sanitize verdict and every range, each "
+              "response with a non-empty body — the reply, a range cut out of it, or the 416 page that replaces it — carries vary: accept-encoding, "
+              "range, <rule headers>, given Package extensions that leave vary alone; send_keeps_vary (send without replacement never changes vary); "
+              "wire_416_without_vary_v0_refuted: before the repair of send (fix f31d94d) the 416 page had no vary (fixture history reproduced on the "
+              "code + for every page); stale_position_safe for the repaired handle_vary_missing (second half of a request against any "
+              "invariant-satisfying cache) with stale_position_v0_refuted for the code before that repair; If-Modified-Since: "
+              "not_modified_before_variant_lookup (the 304 depends on the entry's date only), not_modified_only_for_stored_variant_refuted (a tuple never "
+              "computed gets it; on the code too), not_modified_same_entry_sound + entry_changes_are_dated (a client whose copy stems from the entry "
+              "the 304 is decided on holds the variant that entry has for its tuple; no value changes under its date), honest_not_modified_sound + "
+              "served_copy_is_held (over all histories: a client that was served, or had computed and stored/pushed, the response f for its tuple with "
+              "date L is told 'not modified' on the strength of an entry not younger than L only while that entry holds f for its tuple; premises: "
+              "later requests happen after L, one cache key per URL); vector_refines_assoc_list + "
+              "vary_cache_transparent connect the vector model to Model/Cache.v and C03's transparency. Tied to the repo by the differential run of the "
+              "real kvarn::handle_cache and of kvarn::handle_connection (loopback) against the extracted models (incl. the order of the stored vector), "
+              "the finite-map spec oracle and an independent Python reading of the property on the implementation's output. Not proved: the composition of "
+              "honest_not_modified_sound with the one-second arithmetic of the freshness test (C04); streaming replies.")
+LEVEL_NOTE = ("Trusted: Coq kernel; extraction (sample re-checked in-kernel); hand transcription of vary.rs / handle_cache / the vary-relevant part of send "
+              "into Model/Vary.v and Model/VaryWire.v validated by the differential runs incl. the order of the stored vector; moka as a finite map; the "
+              "harness's own HTTP/1 client. No axioms.")
+TECHNIQUE = ("Coq proof (inductive invariant over all histories + refinement of the sorted vector to a finite map + send as a function of the reply) + "
+             "differential correspondence on kvarn::handle_cache and on kvarn::handle_connection over loopback")
 
-REPORT = [b"vary", b"?last-modified"]
+REPORT = [b"vary"]      # (the presence of last-modified is C04's subject: not compared here)
 
 # ---- menus -------------------------------------------------------------------------------
 NAMES = [b"x-a", b"x-b", b"x-c", b"accept-language", b"x-a", b"x-b"]
@@ -69,6 +114,17 @@ VALUES = {
     3: [b"x", b"y", b"", b"anything"],
 }
 NONTEXT = [b"\xe9t\xe9", b"en\xff", b"\x80", b"sv\xc3\xa5"]
+LONG = b"-" * 70          # a prefix that takes every body over the 50-byte floor of the compressor
+
+
+class Page:
+    """one page: handler path, vary rules (rule name, xform, default, request header name or None), server cache
+    preference (2 Full / 1 QueryMatters), body prefix, and the path or pattern its rule set is registered under"""
+
+    def __init__(self, path, rules, spref=2, prefix=None, rule_path=Ellipsis, echo=None):
+        self.path, self.rules, self.spref, self.prefix = path, rules, spref, prefix
+        self.rule_path = path if rule_path is Ellipsis else rule_path
+        self.echo = rules if echo is None else echo     # what the handler renders (normally the rules' tuple)
 
 
 def gen_rules(rng, n=None):
@@ -90,14 +146,6 @@ def gen_rules(rng, n=None):
     return rules
 
 
-def page(path, idx, rules):
-    """handler (echo transformed tuple, counting) + vary rule set for one page"""
-    tup = [((rq if rq is not None else b"zz-never-sent"), xf, d) for (_, xf, d, rq) in rules]
-    h = pipe.H(path, kind=3, body=b"T%d" % idx, spref=2, tuple_=tup)
-    v = pipe.vary_rule(path, [(n, xf, d) for (n, xf, d, _) in rules])
-    return h, v
-
-
 def rand_value(rng, xf):
     r = rng.random()
     if r < 0.12:
@@ -105,25 +153,31 @@ def rand_value(rng, xf):
     return rng.choice(VALUES[xf])
 
 
-def rand_headers(rng, rules, p_absent=0.25):
+def rand_headers(rng, rules, p_absent=0.25, p_repeat=0.12, encodings=True):
     hdrs = []
     for (name, xf, d, rq) in rules:
         if rq is None:
             continue
         if rng.random() < p_absent:
             continue
-        hdrs.append((rq, rand_value(rng, xf)))
-        if rng.random() < 0.05:       # repeated header: get() returns the first value
-            hdrs.append((rq, rand_value(rng, xf)))
-    if rng.random() < 0.15:
+        v = rand_value(rng, xf)
+        hdrs.append((rq, v))
+        if rng.random() < p_repeat:       # repeated header: get() returns the first value; the second is of another class
+            w = rand_value(rng, xf)
+            for _ in range(4):
+                if _xf(xf, w) != _xf(xf, v):
+                    break
+                w = rand_value(rng, xf)
+            hdrs.append((rq, w))
+    if encodings and rng.random() < 0.15:
         hdrs.append((b"accept-encoding", rng.choice([b"gzip", b"br", b"identity", b"zstd, gzip"])))
     if rng.random() < 0.1:
         hdrs.append((b"x-unrelated", b"1"))
     return hdrs
 
 
-def dump(target):
-    return xl(xn(4), xb(target))
+def dump(target, nrules):
+    return xl(xn(4), xb(target), xn(nrules))
 
 
 def park(target, method=b"GET", addr=1, headers=(), body=b""):
@@ -134,31 +188,41 @@ def release():
     return xl(xn(6))
 
 
-def config(pages, cache=True):
-    hs, vs = [], []
-    for i, (path, rules) in enumerate(pages):
-        h, v = page(path, i, rules)
-        hs.append(h)
-        if rules or i % 2 == 0:
-            vs.append(v)
-    return pipe.cfg(cache=cache, default_ext=False, handlers=hs, vary=vs, report=[xb(r) for r in REPORT], disable_ims=False)
+def as_pages(pages):
+    return [p if isinstance(p, Page) else Page(p[0], p[1]) for p in pages]
+
+
+def config(pages, cache=True, default_ext=False, report=None):
+    pages = as_pages(pages)
+    hs, vs, seen = [], [], set()
+    for i, pg in enumerate(pages):
+        tup = [((rq if rq is not None else b"zz-never-sent"), xf, d) for (_, xf, d, rq) in pg.echo]
+        prefix = pg.prefix if pg.prefix is not None else b"T%d" % i
+        # QueryMatters pages echo the query too (handler kind 5, harness/src/c05.rs): a variant served for another
+        # query is then visible in the body
+        hs.append(pipe.H(pg.path, kind=5 if pg.spref == 1 else 3, body=prefix, spref=pg.spref, tuple_=tup))
+        if pg.rule_path is not None and pg.rule_path not in seen and (pg.rules or i % 2 == 0 or pg.rule_path != pg.path):
+            seen.add(pg.rule_path)
+            vs.append(pipe.vary_rule(pg.rule_path, [(n, xf, d) for (n, xf, d, _) in pg.rules]))
+    return pipe.cfg(cache=cache, default_ext=default_ext, handlers=hs, vary=vs, report=[xb(r) for r in (report or REPORT)],
+                    disable_ims=False)
+
+
+def dumps(pages):
+    return [dump(pg.path, len(pg.rules)) for pg in as_pages(pages)]
 
 
 def history_ops(first, second, pages):
-    ops = list(first)
-    ops += [dump(p) for p, _ in pages]
-    ops += list(second)
-    ops += [dump(p) for p, _ in pages]
-    return ops
+    return list(first) + dumps(pages) + list(second) + dumps(pages)
 
 
-def mk(cfg, ops, kind, spec=True):
-    return Case("vary.run", pipe.scenario(cfg, ops), "vary.spec" if spec else None, {"kind": kind})
+def mk(cfg, ops, kind, spec=True, comp="vary.run"):
+    return Case(comp, pipe.scenario(cfg, ops), "vary.spec" if spec else None, {"kind": kind})
 
 
-def request_set(rng, path, rules, k, methods=(b"GET",)):
-    return [pipe.req(path + (b"?q=%d" % rng.randrange(3) if rng.random() < 0.1 else b""), method=rng.choice(methods),
-                     addr=rng.randrange(1, 4), headers=rand_headers(rng, rules)) for _ in range(k)]
+def request_set(rng, path, rules, k, methods=(b"GET",), p_query=0.1, queries=3, **kw):
+    return [pipe.req(path + (b"?q=%d" % rng.randrange(queries) if rng.random() < p_query else b""), method=rng.choice(methods),
+                     addr=rng.randrange(1, 4), headers=rand_headers(rng, rules, **kw)) for _ in range(k)]
 
 
 def exhaustive_orders(rng, k, kind, nsets):
@@ -166,7 +230,7 @@ def exhaustive_orders(rng, k, kind, nsets):
     cases = []
     for _ in range(nsets):
         rules = gen_rules(rng, rng.choice([1, 2, 2, 3]))
-        pages = [(b"/v", rules)]
+        pages = [Page(b"/v", rules, prefix=LONG if rng.random() < 0.25 else None)]
         cfg = config(pages)
         reqs = request_set(rng, b"/v", rules, k, methods=(b"GET", b"GET", b"GET", b"HEAD"))
         second = list(reqs)
@@ -179,13 +243,13 @@ def exhaustive_orders(rng, k, kind, nsets):
 def random_history(rng, n_lo, n_hi):
     npages = rng.choice([1, 1, 2, 3])
     paths = [b"/v", b"/w", b"/dir/x"][:npages]
-    pages = [(p, gen_rules(rng)) for p in paths]
+    pages = [Page(p, gen_rules(rng), prefix=LONG + p if rng.random() < 0.2 else None) for p in paths]
     cfg = config(pages, cache=rng.random() > 0.04)
     ops = []
     n = rng.randrange(n_lo, n_hi)
     pool = []
-    for p, rules in pages:
-        pool += request_set(rng, p, rules, rng.randrange(3, 9), methods=(b"GET", b"GET", b"GET", b"GET", b"HEAD", b"POST"))
+    for pg in pages:
+        pool += request_set(rng, pg.path, pg.rules, rng.randrange(3, 9), methods=(b"GET", b"GET", b"GET", b"GET", b"HEAD", b"POST"))
     for _ in range(n):
         r = rng.random()
         if r < 0.04:
@@ -193,10 +257,10 @@ def random_history(rng, n_lo, n_hi):
         elif r < 0.055:
             ops.append(pipe.clear_all())
         elif r < 0.12:
-            ops.append(dump(rng.choice(paths)))
+            ops.append(rng.choice(dumps(pages)))
         else:
             ops.append(rng.choice(pool))
-    ops += [dump(p) for p in paths]
+    ops += dumps(pages)
     return mk(cfg, ops, "random")
 
 
@@ -204,7 +268,7 @@ def many_variants(rng):
     """one page, >= 4 distinct tuples in adversarial arrival orders (descending, zig-zag, random)"""
     rules = [(b"x-a", 0, rng.choice(DEFAULTS), b"x-a")] + (gen_rules(rng, 1) if rng.random() < 0.5 else [])
     rules = [r for i, r in enumerate(rules) if i == 0 or r[0] != b"x-a"]
-    pages = [(b"/v", rules)]
+    pages = [Page(b"/v", rules)]
     cfg = config(pages)
     vals = rng.sample(VALUES[0], rng.randrange(4, 9))
     mode = rng.choice(["desc", "asc", "zigzag", "random"])
@@ -227,24 +291,186 @@ def many_variants(rng):
     return mk(cfg, history_ops(reqs, second, pages), "many-" + mode)
 
 
+# tuples whose components run together to the same text: only a comparison component by component tells them apart
+AMBIGUOUS = [
+    [(b"ab", b"c"), (b"a", b"bc"), (b"abc", b""), (b"", b"abc")],
+    [(b"en", b""), (b"", b"en"), (b"e", b"n")],
+    [(b"a", b"a"), (b"aa", b""), (b"", b"aa")],
+    [(b"x-b", b"y"), (b"x", b"-by"), (b"x-", b"by")],
+    [(b"a", b"b", b"c"), (b"ab", b"", b"c"), (b"a", b"", b"bc"), (b"", b"abc", b""), (b"abc", b"", b"")],
+    [(b"sv", b"en", b""), (b"s", b"ven", b""), (b"sv", b"e", b"n"), (b"", b"", b"sven")],
+]
+
+
+def ambiguous(rng, all_orders=True):
+    """rules that keep the value's letters (lower-casing), values whose concatenation coincides: every arrival order"""
+    group = rng.choice(AMBIGUOUS)
+    n = len(group[0])
+    names = [b"x-a", b"x-b", b"x-c"][:n]
+    rules = [(nm, 0, rng.choice([b"", b"", b"a", b"dflt"]), nm) for nm in names]
+    pages = [Page(b"/v", rules)]
+    cfg = config(pages)
+    tuples = list(group)
+    rng.shuffle(tuples)
+    tuples = tuples[:rng.choice([2, 3, 3, 4])]
+    reqs = []
+    for t in tuples:
+        hd = []
+        for nm, v in zip(names, t):
+            # an absent header selects the default: with default "" that is one more way to the empty component
+            if v == b"" and rules[names.index(nm)][2] == b"" and rng.random() < 0.5:
+                continue
+            hd.append((nm, v.upper() if rng.random() < 0.2 else v))
+        reqs.append(pipe.req(b"/v", headers=hd))
+    cases = []
+    perms = list(itertools.permutations(range(len(reqs)))) if all_orders else [tuple(rng.sample(range(len(reqs)), len(reqs)))]
+    for perm in perms[:24]:
+        second = list(reqs)
+        rng.shuffle(second)
+        cases.append(mk(cfg, history_ops([reqs[i] for i in perm], second, pages), "ambiguous"))
+    return cases
+
+
+def query_matters(rng):
+    """pages whose server cache preference is QueryMatters (cache key = path + query) with vary rules: the second
+    lookup of handle_vary_missing and its re-insert run under a PathQuery key"""
+    rules = gen_rules(rng, rng.choice([1, 1, 2]))
+    pages = [Page(b"/p", rules, spref=1), Page(b"/f", gen_rules(rng, 1), spref=2)]
+    cfg = config(pages)
+    pool = request_set(rng, b"/p", rules, rng.randrange(4, 9), methods=(b"GET", b"GET", b"GET", b"HEAD"), p_query=0.8, queries=3)
+    # the same headers under another query, and the other way round
+    for r in list(pool)[:3]:
+        hdrs = [(h[1][0][1], h[1][1][1]) for h in r[1][4][1]]
+        pool.append(pipe.req(b"/p?q=%d" % rng.randrange(3), headers=hdrs))
+    pool += request_set(rng, b"/f", pages[1].rules, 3, p_query=0.5)
+    ops = []
+    for _ in range(rng.randrange(8, 20)):
+        r = rng.random()
+        if r < 0.05:
+            ops.append(pipe.clear_page(rng.choice([b"/p", b"/p?q=1", b"/f"])))
+        elif r < 0.12:
+            ops.append(dump(rng.choice([b"/p", b"/p?q=0", b"/p?q=1", b"/p?q=2"]), len(rules)))
+        else:
+            ops.append(rng.choice(pool))
+    ops += [dump(t, len(rules)) for t in (b"/p", b"/p?q=0", b"/p?q=1", b"/p?q=2")]
+    return mk(cfg, ops, "query-matters", spec=False)
+
+
+def with_prime(rng):
+    """the default extensions (Prime uri_redirect: "<p>/" -> "<p>/index.html", "<p>." -> "<p>.html") in front of pages
+    with vary rules: the rules are those of the rewritten path; rule sets registered under patterns ("<prefix>*")"""
+    r1, r2, r3 = gen_rules(rng, rng.choice([1, 2])), gen_rules(rng, rng.choice([1, 2])), gen_rules(rng, 1)
+    shared = rng.random() < 0.5
+    pages = [Page(b"/dir/index.html", r1, rule_path=b"/dir/*" if shared else b"/dir/index.html"),
+             Page(b"/p.html", r2),
+             Page(b"/dir/x", r1 if shared else r3, rule_path=None if shared else b"/dir/x")]
+    targets = [[b"/dir/", b"/dir/index.html", b"/dir/index."], [b"/p.", b"/p.html"], [b"/dir/x"]]
+    if not shared:
+        # a path that only *starts* like one with an exact rule set has none (or the one of a pattern)
+        pat = rng.random() < 0.5
+        pages.append(Page(b"/dir/xy", gen_rules(rng, 1) if pat else [], rule_path=b"/dir/xy*" if pat else None))
+        targets.append([b"/dir/xy"])
+    if rng.random() < 0.4:      # a longer pattern and an exact path win over "/dir/*"
+        pages.append(Page(b"/dir/sub/y", r3, rule_path=rng.choice([b"/dir/sub/*", b"/dir/sub/y"])))
+        targets.append([b"/dir/sub/y"])
+    cfg = config(pages, default_ext=rng.random() < 0.8)
+    pool = []
+    for pg, ts in zip(pages, targets):
+        for t in ts:
+            pool += request_set(rng, t, pg.rules, 2, methods=(b"GET", b"GET", b"HEAD"), p_query=0.0)
+    ops = [rng.choice(pool) for _ in range(rng.randrange(8, 20))]
+    if rng.random() < 0.3:
+        ops.insert(rng.randrange(len(ops)), pipe.clear_page(rng.choice([b"/dir/index.html", b"/p.html", b"/dir/"])))
+    ops += dumps(pages)
+    return mk(cfg, ops, "prime+patterns")
+
+
+def conditional(rng):
+    """If-Modified-Since (start + 100 s: fresh for every entry; start - 100 s: for none) on requests whose own tuple is
+    stored / was never computed"""
+    rules = gen_rules(rng, rng.choice([1, 2]))
+    while not any(rq for (_, _, _, rq) in rules):
+        rules = gen_rules(rng, 2)
+    pages = [Page(b"/v", rules)]
+    cfg = config(pages)
+    pool = request_set(rng, b"/v", rules, rng.randrange(3, 7), methods=(b"GET", b"GET", b"HEAD"), p_query=0.0, encodings=False)
+    ops = []
+    for _ in range(rng.randrange(5, 14)):
+        r = rng.choice(pool)
+        x = rng.random()
+        if x < 0.45:
+            hdrs = [(h[1][0][1], h[1][1][1]) for h in r[1][4][1]]
+            hdrs.insert(rng.randrange(len(hdrs) + 1), (b"if-modified-since", b"@T+100" if rng.random() < 0.7 else b"@T-100"))
+            r = pipe.req(b"/v", method=r[1][2][1], headers=hdrs)
+        ops.append(r)
+        if rng.random() < 0.08:
+            ops.append(pipe.clear_page(b"/v"))
+    ops += dumps(pages)
+    return mk(cfg, ops, "if-modified-since", spec=False)
+
+
+WIRE_REPORT = [b"vary"]
+RANGES = [b"bytes=0-1", b"bytes=1-3", b"bytes=0-0", b"bytes=2-1000", b"bytes=100-200", b"bytes=4000-", b"bytes=5-2", b"bytes=3-3",
+          b"bytes=0-", b"bytes=-5", b"bytes=9999-10000", b"bytes=40-60"]
+
+
+def wire(rng):
+    """the same kind of history over one HTTP/1.1 connection (component vary.wire): what SendKind::send wrote"""
+    rules = gen_rules(rng, rng.choice([0, 1, 1, 2, 3]))
+    r2 = gen_rules(rng, rng.choice([1, 2]))
+    # /e: a page with rules whose body is empty (the handler renders nothing)
+    pages = [Page(b"/v", rules, prefix=LONG if rng.random() < 0.2 else None), Page(b"/e", r2, prefix=b"", echo=[]), Page(b"/q", r2, spref=1)]
+    cfg = config(pages, default_ext=rng.random() < 0.2, report=WIRE_REPORT)
+    ops = []
+    for _ in range(rng.randrange(5, 16)):
+        pg = rng.choice(pages[:2] if rng.random() < 0.8 else pages)
+        x = rng.random()
+        target = pg.path + (b"?q=%d" % rng.randrange(2) if pg.spref == 1 or rng.random() < 0.05 else b"")
+        if x < 0.06:
+            target = rng.choice([b"/nope", b"/./v", b"/v/../v"])
+        # no repeated header lines: kvarn's HTTP/1 parser keeps the last one (HeaderMap::insert, utils/src/parse.rs — C07's
+        # subject), handle_cache then sees a request with that one value; no leading/trailing white space in a value
+        hdrs = rand_headers(rng, pg.rules, encodings=False, p_repeat=0.0)
+        hdrs = [(n, v) for (n, v) in hdrs if v == v.strip(b" \t")]
+        hdrs = [(n, v) for k, (n, v) in enumerate(hdrs) if n not in [m for (m, _) in hdrs[:k]]]     # (rules with the same header)
+        y = rng.random()
+        if x < 0.06:
+            pass        # (a range of an error page: the run compares error pages by class, not by text)
+        elif y < 0.4:
+            hdrs.append((b"range", rng.choice(RANGES)))
+        elif y < 0.5:
+            hdrs.append((b"accept-encoding", rng.choice([b"gzip", b"br", b"identity"])))
+        if rng.random() < 0.12:
+            hdrs.append((b"if-modified-since", b"@T+100" if rng.random() < 0.7 else b"@T-100"))
+        ops.append(pipe.req(target, method=rng.choice([b"GET", b"GET", b"GET", b"HEAD", b"POST"]), headers=hdrs,
+                            body=b""))
+        if rng.random() < 0.05:
+            ops.append(pipe.clear_page(pg.path))
+    return mk(cfg, ops, "wire", spec=False, comp="vary.wire")
+
+
 def malformed(rng):
     """rule names that add_rule rejects (panic while the host is built), odd header values"""
     bad = rng.choice([b"x\x01a", b"x\x7f", b"caf\xc3\xa9", b"\x00"])
-    pages = [(b"/v", [(bad, 0, b"d", None)])]
+    pages = [Page(b"/v", [(bad, 0, b"d", None)])]
     cfg = config(pages)
-    return mk(cfg, [pipe.req(b"/v"), dump(b"/v")], "malformed-rule-name", spec=False)
+    return mk(cfg, [pipe.req(b"/v"), dump(b"/v", 1)], "malformed-rule-name", spec=False)
 
 
 def interleaved(rng):
     """a request suspended in its handler while others complete (stale position in handle_vary_missing)"""
     rules = [(b"x-a", 0, b"dflt", b"x-a")]
-    pages = [(b"/v", rules)]
+    qm = rng.random() < 0.25
+    pages = [Page(b"/v", rules, spref=1 if qm else 2)]
     cfg = config(pages)
     vals = rng.sample([b"a", b"b", b"c", b"d", b"e", b"f"], 5)
-    pre = [pipe.req(b"/v", headers=[(b"x-a", v)]) for v in vals[:rng.randrange(1, 3)]]
-    mid = [pipe.req(b"/v", headers=[(b"x-a", v)]) for v in vals[3:3 + rng.randrange(0, 2)]]
-    ops = pre + [park(b"/v", headers=[(b"x-a", vals[2])])] + mid + [release(), dump(b"/v")]
-    ops += [pipe.req(b"/v", headers=[(b"x-a", v)]) for v in vals] + [dump(b"/v")]
+    t = b"/v?q=1" if qm else b"/v"
+    pre = [pipe.req(t, headers=[(b"x-a", v)]) for v in vals[:rng.randrange(1, 3)]]
+    mid = [pipe.req(t, headers=[(b"x-a", v)]) for v in vals[3:3 + rng.randrange(0, 2)]]
+    if qm and rng.random() < 0.5:
+        mid.append(pipe.clear_page(t))
+    ops = pre + [park(t, headers=[(b"x-a", vals[2])])] + mid + [release(), dump(t, 1)]
+    ops += [pipe.req(t, headers=[(b"x-a", v)]) for v in vals] + [dump(t, 1)]
     return mk(cfg, ops, "interleaved", spec=False)
 
 
@@ -255,14 +481,14 @@ def corpus_cases():
     cases = []
     # three variants arriving in descending order, then re-requested
     rules = [(b"x-a", 0, b"dflt", b"x-a")]
-    pages = [(b"/v", rules)]
+    pages = [Page(b"/v", rules)]
     cfg = config(pages)
     for order in ([b"c", b"b", b"a"], [b"a", b"c", b"b"], [b"b", b"a", b"c", b"d"], [b"d", b"a", b"c", b"b", b"e"]):
         reqs = [pipe.req(b"/v", headers=[(b"x-a", v)]) for v in order]
         cases.append(mk(cfg, history_ops(reqs, reqs, pages), "corpus"))
     # default applied: absent, non-text, empty value; default equal to a class
     rules = [(b"x-a", 1, b"lo", b"x-a"), (b"x-b", 2, b"0", b"x-b")]
-    pages = [(b"/v", rules)]
+    pages = [Page(b"/v", rules)]
     cfg = config(pages)
     reqs = [pipe.req(b"/v"), pipe.req(b"/v", headers=[(b"x-a", b"\xe9")]), pipe.req(b"/v", headers=[(b"x-a", b"apple")]),
             pipe.req(b"/v", headers=[(b"x-a", b"")]), pipe.req(b"/v", headers=[(b"x-a", b"zebra"), (b"x-b", b"abc")]),
@@ -270,7 +496,7 @@ def corpus_cases():
     cases.append(mk(cfg, history_ops(reqs, reqs, pages), "corpus"))
     # mixed-case and non-token rule names
     rules = [(b"X-Up", 0, b"d", b"x-up"), (b"x bad", 0, b"never", None)]
-    pages = [(b"/v", rules)]
+    pages = [Page(b"/v", rules)]
     cfg = config(pages)
     reqs = [pipe.req(b"/v", headers=[(b"x-up", b"B")]), pipe.req(b"/v", headers=[(b"x-up", b"a")]), pipe.req(b"/v")]
     cases.append(mk(cfg, history_ops(reqs, reqs, pages), "corpus"))
@@ -278,17 +504,51 @@ def corpus_cases():
     # (before the fix: Vec::insert panicked) / while another variant is inserted (before the fix: vector unsorted,
     # the next request for "b" recomputed it and stored it twice)
     rules = [(b"x-a", 0, b"dflt", b"x-a")]
-    pages = [(b"/v", rules)]
+    pages = [Page(b"/v", rules)]
     cfg = config(pages)
 
-    def R(v):
-        return pipe.req(b"/v", headers=[(b"x-a", v)])
+    def R(v, t=b"/v", **kw):
+        return pipe.req(t, headers=[(b"x-a", v)] + list(kw.get("more", [])), method=kw.get("method", b"GET"))
+    D = dump(b"/v", 1)
     cases.append(mk(cfg, [R(b"b"), R(b"c"), R(b"d"), park(b"/v", headers=[(b"x-a", b"e")]), pipe.clear_page(b"/v"), R(b"a"), release(),
-                          dump(b"/v"), R(b"e"), R(b"a"), dump(b"/v")], "corpus-interleaved", spec=False))
-    cases.append(mk(cfg, [R(b"a"), park(b"/v", headers=[(b"x-a", b"c")]), R(b"b"), release(), dump(b"/v"), R(b"b"), R(b"c"), R(b"a"),
-                          dump(b"/v")], "corpus-interleaved", spec=False))
-    cases.append(mk(cfg, [R(b"a"), park(b"/v", headers=[(b"x-a", b"c")]), R(b"c"), release(), dump(b"/v"), R(b"c"), dump(b"/v")],
+                          D, R(b"e"), R(b"a"), D], "corpus-interleaved", spec=False))
+    cases.append(mk(cfg, [R(b"a"), park(b"/v", headers=[(b"x-a", b"c")]), R(b"b"), release(), D, R(b"b"), R(b"c"), R(b"a"),
+                          D], "corpus-interleaved", spec=False))
+    cases.append(mk(cfg, [R(b"a"), park(b"/v", headers=[(b"x-a", b"c")]), R(b"c"), release(), D, R(b"c"), D],
                     "corpus-interleaved", spec=False))
+    # tuples that run together to the same text: ("ab","c") / ("a","bc") / ("abc","") / ("","abc"), ("en","") / ("","en")
+    rules = [(b"x-a", 0, b"", b"x-a"), (b"x-b", 0, b"", b"x-b")]
+    pages = [Page(b"/v", rules)]
+    cfg = config(pages)
+
+    def T(a, b):
+        return pipe.req(b"/v", headers=([(b"x-a", a)] if a else []) + ([(b"x-b", b)] if b else []))
+    for order in ([(b"ab", b"c"), (b"a", b"bc")], [(b"a", b"bc"), (b"ab", b"c"), (b"abc", b""), (b"", b"abc")],
+                  [(b"", b"en"), (b"en", b"")], [(b"", b"abc"), (b"abc", b""), (b"ab", b"c")]):
+        reqs = [T(a, b) for a, b in order]
+        cases.append(mk(cfg, history_ops(reqs, list(reversed(reqs)), pages), "corpus-ambiguous"))
+    # QueryMatters page: a variant computed for ?x=1 is not the one of ?x=2; the re-insert keeps the PathQuery key
+    pages = [Page(b"/p", [(b"x-a", 0, b"dflt", b"x-a")], spref=1)]
+    cfg = config(pages)
+    Dq = [dump(t, 1) for t in (b"/p?x=1", b"/p?x=2", b"/p")]
+    cases.append(mk(cfg, [R(b"a", b"/p?x=1"), R(b"b", b"/p?x=1"), R(b"b", b"/p?x=2"), R(b"a", b"/p?x=2"), R(b"a", b"/p")] + Dq +
+                    [R(b"b", b"/p?x=1"), R(b"a", b"/p?x=1"), R(b"b", b"/p?x=2"), R(b"c", b"/p"), pipe.clear_page(b"/p?x=1"), R(b"b", b"/p?x=1"),
+                     R(b"b", b"/p?x=2")] + Dq, "corpus-query-matters", spec=False))
+    # If-Modified-Since: 304 for a tuple that was never computed (not_modified_only_for_stored_variant_refuted), full reply for an old date
+    pages = [Page(b"/v", [(b"x-a", 0, b"dflt", b"x-a")])]
+    cfg = config(pages)
+    cases.append(mk(cfg, [R(b"a"), R(b"zz", more=[(b"if-modified-since", b"@T+100")]), D, R(b"zz"), R(b"zz", more=[(b"if-modified-since", b"@T-100")]),
+                          R(b"a", more=[(b"if-modified-since", b"@T+100")], method=b"HEAD"), D], "corpus-if-modified-since", spec=False))
+    # on the wire: the 416 page that send() substitutes (wire_416_without_vary_v0_refuted), a range of a variant, HEAD, an empty
+    # page and the 416 that replaces it, 404, 400, a 304 and the 416 that replaces it
+    pages = [Page(b"/v", [(b"x-a", 0, b"dflt", b"x-a")]), Page(b"/e", [(b"x-a", 0, b"dflt", b"x-a")], prefix=b"", echo=[])]
+    cfgw = config(pages, report=WIRE_REPORT)
+    RG = lambda v: (b"range", v)
+    cases.append(mk(cfgw, [R(b"a"), R(b"a", more=[RG(b"bytes=0-1")]), R(b"a", more=[RG(b"bytes=100-200")]), R(b"b", more=[RG(b"bytes=100-200")]),
+                           R(b"a", more=[RG(b"bytes=5-2")]), R(b"a", method=b"HEAD"), R(b"a", b"/e"), R(b"a", b"/e", more=[RG(b"bytes=0-5")]),
+                           R(b"a", b"/nope"), R(b"a", b"/./v"), R(b"zz", more=[(b"if-modified-since", b"@T+100")]),
+                           R(b"a", more=[(b"if-modified-since", b"@T+100"), RG(b"bytes=0-1")]), R(b"zz"), pipe.clear_page(b"/v"),
+                           R(b"zz", method=b"POST")], "corpus-wire", spec=False, comp="vary.wire"))
     return cases
 
 
@@ -298,8 +558,14 @@ def generate(rng, tier):
         cases += exhaustive_orders(rng, 3, "orders", 6)      # 6 * 6
         cases += exhaustive_orders(rng, 4, "orders", 4)      # 4 * 24
         cases += exhaustive_orders(rng, 5, "orders", 1)      # 120
-        cases += [many_variants(rng) for _ in range(120)]
-        cases += [random_history(rng, 6, 22) for _ in range(260)]
+        cases += [many_variants(rng) for _ in range(100)]
+        cases += [random_history(rng, 6, 22) for _ in range(220)]
+        for _ in range(8):
+            cases += ambiguous(rng)
+        cases += [query_matters(rng) for _ in range(40)]
+        cases += [with_prime(rng) for _ in range(40)]
+        cases += [conditional(rng) for _ in range(30)]
+        cases += [wire(rng) for _ in range(60)]
         cases += [malformed(rng) for _ in range(4)]
         cases += [interleaved(rng) for _ in range(30)]
     else:
@@ -309,6 +575,12 @@ def generate(rng, tier):
         cases += exhaustive_orders(rng, 5, "orders", 40)     # 4800
         cases += [many_variants(rng) for _ in range(2500)]
         cases += [random_history(rng, 6, 40) for _ in range(6000)]
+        for _ in range(150):
+            cases += ambiguous(rng)
+        cases += [query_matters(rng) for _ in range(1200)]
+        cases += [with_prime(rng) for _ in range(1200)]
+        cases += [conditional(rng) for _ in range(800)]
+        cases += [wire(rng) for _ in range(1500)]
         cases += [malformed(rng) for _ in range(12)]
         cases += [interleaved(rng) for _ in range(600)]
     return cases
@@ -316,23 +588,34 @@ def generate(rng, tier):
 
 def directed(rng, mismatches):
     cases = exhaustive_orders(rng, 4, "orders", 12)
-    cases += [many_variants(rng) for _ in range(600)]
-    cases += [random_history(rng, 6, 30) for _ in range(600)]
+    for _ in range(40):
+        cases += ambiguous(rng)
+    cases += [many_variants(rng) for _ in range(500)]
+    cases += [random_history(rng, 6, 30) for _ in range(500)]
+    cases += [query_matters(rng) for _ in range(200)]
+    cases += [with_prime(rng) for _ in range(150)]
+    cases += [conditional(rng) for _ in range(100)]
+    cases += [wire(rng) for _ in range(200)]
     return cases
 
 
 # ---- oracle ------------------------------------------------------------------------------
+UNREADABLE = ("L", [("N", 94)])      # a dump whose Debug text the harness could not read: not an outcome of the code
+
+
 def _hc(x):
     return [(a[1][0][1], a[1][1][1]) for a in x[1]]
 
 
 def _dump_ok(i, s):
     """implementation dump (L pq_slot p_slot) vs. the spec's list of seen header lists of the page"""
+    if i == UNREADABLE:
+        return True
     try:
         seen = [_hc(h) for h in s[1]]
         slots = i[1]
         if len(slots) != 2 or slots[0][1] != []:
-            return False       # fixture pages are stored under the path key only
+            return False       # the pages of cases with a spec component are stored under the path key only
         if slots[1][1] == []:
             return seen == []
         vec = [_hc(h) for h in slots[1][1][0][1]]
@@ -360,6 +643,21 @@ def spec_ok(c, impl, spec):
     return True
 
 
+def compare(c, i, m):
+    """equality, except that a dump the harness could not read is not compared (counted in the evidence)"""
+    if i == m:
+        return True
+    if "(L (N 94))" not in i:
+        return False
+    try:
+        a, b = xparse(i), xparse(m)
+        if a[0] != "L" or b[0] != "L" or len(a[1]) != len(b[1]):
+            return False
+        return all(x == y or x == UNREADABLE for x, y in zip(a[1], b[1]))
+    except Exception:
+        return False
+
+
 def _xf(i, v):
     if i == 0:
         return v.lower()
@@ -370,24 +668,223 @@ def _xf(i, v):
     return b"k"
 
 
+_TOKEN = set(b"!#$%&'*+-.^_`|~0123456789abcdefghijklmnopqrstuvwxyz")
+
+
+def _lookup_name(name):
+    """HeaderMap::get(&str): the name lower-cased; a name that is no token finds nothing"""
+    n = name.lower()
+    return n if n and all(ch in _TOKEN for ch in n) else None
+
+
+def _text(v):
+    return v is not None and all(32 <= b < 127 or b == 9 for b in v)
+
+
+def _first_headers(req):
+    hdrs = {}
+    for h in req[1][4][1]:
+        hdrs.setdefault(h[1][0][1], h[1][1][1])
+    return hdrs
+
+
+class _Cfg:
+    def __init__(self, c):
+        kv_ = {k[1][0][1]: k[1][1] for k in c.x[1][0][1]}
+        flag = lambda k, d: (kv_[k][1] == 1) if k in kv_ else d
+        self.cache, self.default_ext, self.ims = flag(b"cache", True), flag(b"default_ext", False), not flag(b"disable_ims", False)
+        self.pages = {}
+        for h in kv_.get(b"handlers", ("L", []))[1]:
+            f = h[1]      # a later handler for the same path replaces the earlier one
+            self.pages[f[0][1]] = {"kind": f[1][1], "prefix": f[3][1], "spref": f[5][1],
+                                   "tuple": [(t[1][0][1], t[1][1][1], t[1][2][1]) for t in f[9][1]]}
+        self.vary = []
+        for r in kv_.get(b"vary", ("L", []))[1]:
+            pat = r[1][0][1]
+            self.vary = [e for e in self.vary if e[0] != pat] + [(pat, [(t[1][0][1], t[1][1][1], t[1][2][1]) for t in r[1][1][1]])]
+
+    def rules(self, path):
+        """extensions::RuleSet::get: the exact path, else the longest pattern "<prefix>*" whose prefix starts the path"""
+        for pat, rs in self.vary:
+            if pat == path:
+                return rs
+        best = None
+        for pat, rs in self.vary:
+            if pat.endswith(b"*") and path.startswith(pat[:-1]) and (best is None or len(pat) > len(best[0])):
+                best = (pat, rs)
+        return best[1] if best else []
+
+    def prime(self, path):
+        if self.default_ext and path.endswith(b"."):
+            return path + b"html"
+        if self.default_ext and path.endswith(b"/"):
+            return path + b"index.html"
+        return path
+
+    def own(self, path, hdrs):
+        out = []
+        for (n, xf, d) in self.rules(path):
+            ln = _lookup_name(n)
+            v = hdrs.get(ln) if ln is not None else None
+            out.append(_xf(xf, v) if _text(v) else d)
+        return tuple(out)
+
+    def vary_text(self, path):
+        return b"accept-encoding, range" + b"".join(b", " + n for (n, _, _) in self.rules(path))
+
+    def rendering(self, path, query, hdrs):
+        pg = self.pages[path]
+        want = pg["prefix"]
+        if pg["kind"] == 5 and query:
+            want += b"?" + query
+        if pg["kind"] in (3, 5):
+            for (n, xf, d) in pg["tuple"]:
+                v = hdrs.get(n)
+                want += b"|" + (_xf(xf, v) if _text(v) else d)
+        return want
+
+
+_RANGE = re.compile(rb"^bytes=(\+?[0-9]+)-(\+?[0-9]+)$")
+
+
+def _sanitize(path, hdrs):
+    """(ok, range) as utils::sanitize_request sees the request (paths of the generators have no percent escapes)"""
+    if b"./" in path or not path.startswith(b"/") or path.startswith(b"//"):
+        return False, None
+    rg = hdrs.get(b"range")
+    m = _RANGE.match(rg) if _text(rg) else None
+    if m:
+        a, b = int(m.group(1)), int(m.group(2))
+        if a > b:
+            return False, None
+        return True, (a, b + 1)
+    return True, None
+
+
+def _split(target):
+    path, _, q = target.partition(b"?")
+    return path, (q or None)
+
+
+def _ims_fresh(hdrs):
+    """True / False for the two dates the generators use (start + 100 s, start - 100 s), None otherwise"""
+    v = hdrs.get(b"if-modified-since")
+    if v is None:
+        return False
+    if v == b"@T+100":
+        return True
+    if v == b"@T-100":
+        return False
+    return None
+
+
+def _history_oracle(c, out, wire_):
+    """An independent reading of the property on the implementation's output alone, for sequential histories: a
+    store  cache key -> set of transformed tuples  is kept; a request for a page is answered from the store without a
+    handler invocation exactly when its own tuple is there (or with 304 when its date is fresh for the entry), and
+    with exactly one invocation otherwise; every 200 body is the rendering of the request's *own* transformed tuple
+    (and query); every non-empty response carries  vary: accept-encoding, range, <rule headers>."""
+    cf = _Cfg(c)
+    ops = c.x[1][1][1]
+    store = {}
+    for n, (o, x) in enumerate(zip(ops, out[1])):
+        kind = o[1][0][1]
+        if kind in (5, 6):
+            return None                     # park/release: not a sequential history
+        if kind == 1:
+            path, q = _split(o[1][1][1])
+            store.pop(("pq", path, q), None)
+            store.pop(("p", path), None)
+        elif kind == 2:
+            store.clear()
+        if kind != 0 or x[0] != "L" or len(x[1]) < 5:
+            continue
+        method, target = o[1][2][1], o[1][3][1]
+        hdrs = _first_headers(o)
+        path0, q = _split(target)
+        path = cf.prime(path0)
+        status, reported, body = x[1][0][1], x[1][1][1], x[1][2][1]
+        log = x[1][-1][1]
+        where = "request #%d %s %s %r: " % (n, method.decode(), target.decode("latin1"), sorted(hdrs.items()))
+        # -- the vary header
+        lines = [h[1][1][1] for h in reported if h[1][0][1] == b"vary"]
+        want_vary = cf.vary_text(path)
+        if body != b"" and lines != [want_vary]:
+            return where + "non-empty response (status %d) with vary %r, expected %r" % (status, lines, want_vary)
+        if body == b"" and lines not in ([], [want_vary]):
+            return where + "response (status %d) with vary %r, expected none or %r" % (status, lines, want_vary)
+        ok, rg = _sanitize(path0, hdrs)
+        if path not in cf.pages or not ok:
+            if len(log) != 0 and not ok:
+                return where + "a request that fails sanitize reached the handler"
+            continue
+        # -- who computed it
+        t = cf.own(path, hdrs)
+        gh = method in (b"GET", b"HEAD")
+        expect_calls = 1
+        if gh and cf.cache:
+            kpq, kp = ("pq", path, q), ("p", path)
+            key = kpq if kpq in store else kp if kp in store else None
+            if key is not None:
+                fresh = _ims_fresh(hdrs) if cf.ims else False
+                if fresh is None:
+                    return None
+                # a date that is fresh for the entry: "not modified" is an answer (whether it is the right one is C04's
+                # subject; that the code gives it without looking at the variants is the model's) - computed by nobody,
+                # nothing stored.  (send() cuts a requested range out of the empty body of the 304: always the 416 page.)
+                if fresh and status == 304:
+                    if len(log) != 0:
+                        return where + "the handler was invoked for a request that was answered 304"
+                    continue
+                if fresh and wire_ and rg is not None and status == 416 and len(log) == 0:
+                    continue
+                if t in store[key]:
+                    expect_calls = 0
+                else:
+                    store[key].add(t)
+            else:
+                store[kpq if cf.pages[path]["spref"] == 1 else kp] = {t}
+        if len(log) != expect_calls:
+            if expect_calls == 0:
+                return where + "the handler was invoked although a response for the transformed tuple %r is stored" % (t,)
+            return where + ("no handler invocation although no response for the transformed tuple %r (query %r) was computed since the last clear"
+                            % (t, q))
+        # -- what it says
+        want = cf.rendering(path, q, hdrs)
+        if wire_:
+            if status == 416 and rg is not None and rg[0] >= len(want):
+                continue
+            if rg is not None and rg[0] < len(want):
+                if status != 206:
+                    return where + "status %d for a satisfiable range" % status
+                want = want[rg[0]:min(rg[1], len(want))]
+            elif status != 200:
+                return where + "status %d, expected 200" % status
+            if method == b"HEAD":
+                want = b""
+        elif status != 200:
+            return where + "status %d, expected 200" % status
+        if body != want:
+            return where + "body %r is not the rendering of the request's own transformed tuple %r" % (body, want)
+    return None
+
+
 def extra_oracle(c, impl):
-    """On the implementation's output alone (also for the park/release histories, which have no sequential spec):
-    no dumped vector holds two variants with equal header lists and every 200 body is the handler prefix followed
-    by the rendering of the request's *own* transformed tuple (Python re-implementation of the menu)."""
+    """On the implementation's output alone (also for the histories without a spec component): no dumped vector holds two
+    variants with equal header lists; the history oracle above; for park/release histories: every 200 body is the handler
+    prefix followed by the rendering of the request's *own* transformed tuple (Python re-implementation of the menu)."""
     try:
         out = xparse(impl)
         if out == ("L", [("N", 2)]):
             return "handle_cache panicked" if c.meta.get("kind") != "malformed-rule-name" else None
-        cfg = {k[1][0][1]: k[1][1] for k in c.x[1][0][1]}
-        pages = {}
-        for i, h in enumerate(cfg[b"handlers"][1]):
-            f = h[1]
-            pages[f[0][1]] = (f[3][1], [(t[1][0][1], t[1][1][1], t[1][2][1]) for t in f[9][1]])
+        if out[0] != "L" or (out[1] and out[1][0][0] == "N"):
+            return None
+        cf = _Cfg(c)
         ops = c.x[1][1][1]
         pending = None
         for o, x in zip(ops, out[1]):
             kind = o[1][0][1]
-            if kind == 4:
+            if kind == 4 and x != UNREADABLE:
                 for slot in x[1]:
                     if slot[1]:
                         vec = [_hc(h) for h in slot[1][0][1]]
@@ -400,23 +897,16 @@ def extra_oracle(c, impl):
                     pending, req = o, None
             elif kind == 6 and pending is not None:
                 req, pending = pending, None
-            if req is not None and x[0] == "L" and len(x[1]) == 6 and x[1][0][1] == 200:
-                path = req[1][3][1].split(b"?")[0]
-                if path in pages:
-                    prefix, tup = pages[path]
-                    hdrs = {}
-                    for h in req[1][4][1]:
-                        hdrs.setdefault(h[1][0][1], h[1][1][1])
-                    want = prefix
-                    for (n, xf, d) in tup:
-                        v = hdrs.get(n)
-                        text = v is not None and all(32 <= b < 127 or b == 9 for b in v)
-                        want += b"|" + (_xf(xf, v) if text else d)
+            if req is not None and c.comp == "vary.run" and x[0] == "L" and len(x[1]) == 6 and x[1][0][1] == 200:
+                path, q = _split(req[1][3][1])
+                path = cf.prime(path)
+                if path in cf.pages:
+                    want = cf.rendering(path, q, _first_headers(req))
                     if x[1][2][1] != want:
                         return "body %r is not the rendering of the request's own transformed tuple %r" % (x[1][2][1], want)
+        return _history_oracle(c, out, c.comp == "vary.wire")
     except Exception as e:  # malformed output is a correspondence matter, not an oracle verdict
         return None
-    return None
 
 
 def _max_variants(m):
@@ -433,18 +923,40 @@ def _max_variants(m):
 
 
 def signature(c, m):
+    if c.comp == "vary.wire":
+        st = sorted({x[1][0][1] for x in xparse(m)[1] if x[0] == "L" and len(x[1]) == 5})
+        return "wire:" + ",".join(map(str, st)) if len(st) >= 2 else None
     n = _max_variants(m)
     return "variants=%d" % n if n >= 3 else None
 
 
 def extra_coverage(cases, impl, model, spec):
-    hist = {}
+    hist, wire_status, unreadable, dumps_, qm_vm = {}, {}, 0, 0, 0
+    wire_nonempty = 0
     for c in cases:
-        if c.id in model:
+        if c.id in model and c.comp == "vary.run":
             n = _max_variants(model[c.id])
             hist[n] = hist.get(n, 0) + 1
+        if c.id in impl:
+            i = impl[c.id]
+            dumps_ += sum(1 for o in c.x[1][1][1] if o[1][0][1] == 4)
+            unreadable += i.count("(L (N 94))")
+            if c.comp == "vary.wire":
+                try:
+                    for x in xparse(i)[1]:
+                        if x[0] == "L" and len(x[1]) == 5:
+                            wire_status[x[1][0][1]] = wire_status.get(x[1][0][1], 0) + 1
+                            wire_nonempty += x[1][2][1] != b""
+                except Exception:
+                    pass
+    if unreadable:
+        print("note: %d of %d dumps of the variant vector could not be read (has the Debug output of VariedResponse changed?): the order of "
+              "the stored vector was not compared in those; every other check ran" % (unreadable, dumps_))
     return {"histories_by_max_variants_on_a_page": {str(k): v for k, v in sorted(hist.items())},
-            "histories_with_4_or_more_variants": sum(v for k, v in hist.items() if k >= 4)}
+            "histories_with_4_or_more_variants": sum(v for k, v in hist.items() if k >= 4),
+            "dumps": dumps_, "dumps_unreadable": unreadable,
+            "wire_responses_by_status": {str(k): v for k, v in sorted(wire_status.items())},
+            "wire_responses_with_a_body": wire_nonempty}
 
 
 def describe(c):
@@ -479,5 +991,23 @@ THEOREM_PINS = [
      'forall (hstate : Type) (compute : hstate -> request -> bool -> fat * hstate * list bytes) (ims_on : bool) (parse_ims : bytes -> option Z) (sanitize_ok : request -> bool) (prime : request -> request) (negotiate : request -> fat -> option (N * bytes)) (rules_of : bytes -> list rule) (dbg : bool), (forall (hs : hstate) (r : request) (ok : bool), assoc (B "vary") (f_headers (fst (fst (compute hs r ok)))) = None) -> forall cf : request -> bool -> fat, (forall (hs : hstate) (r : request) (ok : bool), fst (fst (compute hs r ok)) = cf r ok) -> (forall r r\' : request, get_or_head (rq_method r) = true -> get_or_head (rq_method r\') = true -> vary_tuple_of rules_of r = vary_tuple_of rules_of r\' -> rq_path r = rq_path r\' -> (qm (cf r true) = true -> path_query r = path_query r\') -> cf r true = cf r\' true) -> (forall r r\' : request, rq_path r = rq_path r\' -> qm (cf r true) = qm (cf r\' true)) -> (forall r : request, f_spref (cf r false) = SP_NONE) -> forall (ops : list op) (hs hsU : hstate) (now : N), Forall (op_no_ims ims_on prime) ops -> exists l : list (obs * list request), runV hstate compute true ims_on parse_ims sanitize_ok prime negotiate rules_of dbg ([], hs) now ops = Ok l /\\ Forall2 obs_equiv (map fst l) (run hstate compute false ims_on parse_ims sanitize_ok prime negotiate (vary_tuple_of rules_of) (vary_header_of rules_of) ([], hsU) now ops)'),
     ('stale_position_v0_refuted',
      '(run_vary_v0 stale_panic_history = XL [XN 2] /\\ run_vary stale_panic_history = stale_panic_history_out) /\\ run_vary_v0 stale_unsorted_history = stale_unsorted_history_out_v0 /\\ run_vary stale_unsorted_history = stale_unsorted_history_out'),
+    ('wire_vary_advertised',
+     'forall (hstate : Type) (compute : hstate -> request -> bool -> fat * hstate * list bytes) (cache_on ims_on : bool) (parse_ims : bytes -> option Z) (sanitize_ok : request -> bool) (prime : request -> request) (negotiate : request -> fat -> option (N * bytes)) (rules_of : bytes -> list rule) (dbg : bool) (package : request -> list (bytes * bytes) -> list (bytes * bytes)) (err416_body : bytes) (ops : list op) (c : vcache) (hs : hstate) (now : N), InvV hstate compute rules_of c -> (forall (r : request) (hs0 : list (bytes * bytes)), assoc (B "vary") (package r hs0) = assoc (B "vary") hs0) -> exists l : list (obs * list request), runV hstate compute cache_on ims_on parse_ims sanitize_ok prime negotiate rules_of dbg (c, hs) now ops = Ok l /\\ Forall2 (fun (o : op) (oc : obs * list request) => match o with | OReq r0 => match fst oc with | ObReply rp _ => forall (san : option (option (N * N))) (w : wreply), send_v rules_of package err416_body true (prime r0) san rp = Ok w -> w_body w <> [] -> assoc (B "vary") (w_headers w) = Some (B "accept-encoding, range" ++ concat (map (fun ru : rule => B ", " ++ ru_name ru) (rules_of (rq_path (prime r0))))) | _ => True end | _ => True end) ops l'),
+    ('send_keeps_vary',
+     'forall (rules_of : bytes -> list rule) (package : request -> list (bytes * bytes) -> list (bytes * bytes)) (err416_body : bytes) (fixed : bool) (r : request) (san : option (option (N * N))) (rp : reply) (w : wreply), (forall (r\' : request) (hs0 : list (bytes * bytes)), assoc (B "vary") (package r\' hs0) = assoc (B "vary") hs0) -> send_v rules_of package err416_body fixed r san rp = Ok w -> ~ (exists (rg : option (N * N)) (e : N), san = Some rg /\\ apply_range true rg (rp_status rp) (rp_body rp) = Err e) -> assoc (B "vary") (w_headers w) = assoc (B "vary") (rp_headers rp) /\\ (w_body w <> [] -> rp_body rp <> [])'),
+    ('not_modified_before_variant_lookup',
+     'forall (hstate : Type) (compute : hstate -> request -> bool -> fat * hstate * list bytes) (cache_on ims_on : bool) (parse_ims : bytes -> option Z) (sanitize_ok : request -> bool) (prime : request -> request) (negotiate : request -> fat -> option (N * bytes)) (rules_of : bytes -> list rule) (dbg : bool) (c : vcache) (hs : hstate) (now : N) (r0 : request) (k : key) (e : ventry) (c1 : vcache), cache_on = true /\\ ims_on = true /\\ vlookup (prime r0) c now = (k, Some e, c1) /\\ sanitize_ok r0 = true /\\ get_or_head (rq_method (prime r0)) = true /\\ (exists (v : bytes) (t : Z), header (B "if-modified-since") (prime r0) = Some v /\\ parse_ims v = Some t /\\ ims_fresh t (ve_created e) = true) -> serveV hstate compute cache_on ims_on parse_ims sanitize_ok prime negotiate rules_of dbg (c, hs) now r0 = Ok (c1, hs, {| rp_status := 304; rp_headers := []; rp_body := []; rp_identity := []; rp_last_modified := ims_on; rp_from_cache := true |}, [], [])'),
+    ('not_modified_same_entry_sound',
+     'forall (hstate : Type) (compute : hstate -> request -> bool -> fat * hstate * list bytes) (rules_of : bytes -> list rule) (c : vcache) (k : key) (e : ventry) (r r1 : request) (p : fat * hcoll), InvV hstate compute rules_of c -> pc_find k c = Some e -> kpath k = rq_path r -> rq_path r1 = rq_path r -> own_tuple rules_of r1 = own_tuple rules_of r -> vr_get_by_request (ve_var e) r1 = Ok (Hit p) -> vr_get_by_request (ve_var e) r = Ok (Hit p) /\\ snd p = own_tuple rules_of r'),
+    ('entry_changes_are_dated',
+     "forall (hstate : Type) (compute : hstate -> request -> bool -> fat * hstate * list bytes) (cache_on ims_on : bool) (parse_ims : bytes -> option Z) (sanitize_ok : request -> bool) (prime : request -> request) (negotiate : request -> fat -> option (N * bytes)) (rules_of : bytes -> list rule) (dbg : bool) (st : vstate hstate) (now : N) (o : op) (st' : vstate hstate) (now' : N) (ob : obs) (calls : list request), stepV hstate compute cache_on ims_on parse_ims sanitize_ok prime negotiate rules_of dbg st now o = Ok (st', now', ob, calls) -> forall k : key, pc_find k (fst st') = pc_find k (fst st) \\/ pc_find k (fst st') = None \\/ (exists e' : ventry, pc_find k (fst st') = Some e' /\\ ve_created e' = now)"),
+    ('wire_416_without_vary_v0_refuted',
+     '(run_vary_wire_v0 wire416_history = wire416_out_v0 /\\ run_vary_wire wire416_history = wire416_out) /\\ (forall (rules_of : bytes -> list rule) (err416_body : list N) (r : request), err416_body <> [] -> exists (rp : reply) (w : wreply), rp_body rp <> [] /\\ send_v rules_of (fun (_ : request) (hs : list (bytes * bytes)) => hs) err416_body false r (Some (Some (100, 201))) (finishV (fun (_ : request) (_ : fat) => None) r {| f_status := 200; f_headers := []; f_body := B "page"; f_spref := SP_FULL; f_compress := true |} (own_tuple rules_of r) true true) = Ok w /\\ rp = finishV (fun (_ : request) (_ : fat) => None) r {| f_status := 200; f_headers := []; f_body := B "page"; f_spref := SP_FULL; f_compress := true |} (own_tuple rules_of r) true true /\\ w_body w <> [] /\\ assoc (B "vary") (w_headers w) = None)'),
+    ('not_modified_only_for_stored_variant_refuted',
+     'run_vary ims_history = ims_history_out'),
+    ('honest_not_modified_sound',
+     "forall (hstate : Type) (compute : hstate -> request -> bool -> fat * hstate * list bytes) (cache_on ims_on : bool) (parse_ims : bytes -> option Z) (sanitize_ok : request -> bool) (prime : request -> request) (negotiate : request -> fat -> option (N * bytes)) (rules_of : bytes -> list rule) (dbg : bool) (L : N) (c2 : vcache) (hs2 : hstate) (t1 : N) (ops2 : list op) (c3 : vcache) (hs3 : hstate) (t3 : N) (r r' : request) (f : fat) (k : key) (e : ventry) (c3' : vcache), InvV hstate compute rules_of c2 -> pc_find (key_pq r) c2 = None \\/ pc_find (key_p r) c2 = None -> (exists (k0 : key) (e0 : ventry), (k0 = key_pq r \\/ k0 = key_p r) /\\ pc_find k0 c2 = Some e0 /\\ vr_get_by_request (ve_var e0) r = Ok (Hit (f, own_tuple rules_of r)) /\\ L <= ve_created e0) \\/ pc_find (key_pq r) c2 = None /\\ pc_find (key_p r) c2 = None -> later L t1 ops2 -> runV_state hstate compute cache_on ims_on parse_ims sanitize_ok prime negotiate rules_of dbg (c2, hs2) t1 ops2 = Ok (c3, hs3, t3) -> path_query r' = path_query r -> own_tuple rules_of r' = own_tuple rules_of r -> vlookup r' c3 t3 = (k, Some e, c3') -> ve_created e <= L -> vr_get_by_request (ve_var e) r' = Ok (Hit (f, own_tuple rules_of r'))"),
+    ('served_copy_is_held',
+     "forall (hstate : Type) (compute : hstate -> request -> bool -> fat * hstate * list bytes) (cache_on ims_on : bool), (request -> bool) -> (request -> request) -> forall (negotiate : request -> fat -> option (N * bytes)) (rules_of : bytes -> list rule) (dbg : bool), (forall (r : request) (c : vcache) (now : N) (k : key) (e : ventry) (c1 : vcache) (f : fat), vlookup r c now = (k, Some e, c1) -> vr_get_by_request (ve_var e) r = Ok (Hit (f, own_tuple rules_of r)) -> holds_copy rules_of c1 r f (ve_created e)) /\\ (forall (c1 : vcache) (hs' : hstate) (now : N) (r : request) (f : fat) (lg : list bytes) (lm_of : fat -> bool) (cached : bool) (st' : vstate hstate) (rp : reply) (lg' : list bytes) (calls : list request), may_store cache_on (rq_method r) f = true -> new_and_cache hstate cache_on negotiate rules_of dbg c1 hs' now r f lg lm_of cached = Ok (st', rp, lg', calls) -> holds_copy rules_of (fst st') r f now /\\ rp = finishV negotiate r f (own_tuple rules_of r) (lm_of f) cached) /\\ (forall (c : vcache) (hs : hstate) (now : N) (r : request) (ok : bool) (k : key) (e : ventry) (position : nat) (headers : hcoll) (st' : vstate hstate) (rp : reply) (lg : list bytes) (calls : list request), InvV hstate compute rules_of c -> k = key_pq r \\/ k = key_p r -> pc_find k c = Some e -> vfresh e now = true -> ve_created e <= now -> vr_get_by_request (ve_var e) r = Ok (Miss position headers) -> vary_missing hstate compute cache_on ims_on negotiate rules_of dbg c hs now r ok k position headers = Ok (st', rp, lg, calls) -> holds_copy rules_of (fst st') r (fst (fst (compute hs r ok))) (ve_created e) /\\ rp = finishV negotiate r (fst (fst (compute hs r ok))) (own_tuple rules_of r) ims_on true)"),
 ]
 THEOREMS = THEOREM_PINS
